@@ -26,6 +26,13 @@ def main() -> int:
     # the repository is used from its working tree; hooks (none are needed) would be enabled by this guard
     os.environ.setdefault("PSD_TOOLS_VERIF", "1")
     os.environ.setdefault("PYTHONDONTWRITEBYTECODE", "1")
+    # never trust a stale __pycache__ of the repository: byte code is looked up in an empty scratch directory
+    import atexit, shutil, tempfile
+    pyc = tempfile.mkdtemp(prefix="verif-pyc-")
+    atexit.register(shutil.rmtree, pyc, True)
+    sys.pycache_prefix = pyc
+    sys.dont_write_bytecode = True
+    os.environ["PYTHONPYCACHEPREFIX"] = pyc
     import logging
     logging.disable(logging.CRITICAL)   # the library logs decoding errors it re-raises
     ctx = core.Run(a.prop, a.tier, seed)
